@@ -40,6 +40,7 @@ func checkC10(w *World, r *Report) {
 	r.Explanation += " Round 9: (R10.11) re-entrant functions do not bracket nested work with constants in shared state; (R10.12) the parser does not filter node lists by what the nodes are."
 	r.Explanation += " Round 10: (R10.13) the print tag writes the whole converted value."
 	r.Explanation += " Round 11: (R10.14) Parse returns a RootNode."
+	r.Explanation += " Round 12: (R10.15) templates are not judged at load time by what their tree contains."
 	r.RuleText = "obligation = one lookup in a block-body map whose result reaches a branch condition (R10.1), one map hand-over (R10.2); non-trivial = all"
 	r.Trusted = []string{"go/types resolution of map element types"}
 
@@ -1462,6 +1463,16 @@ func checkTemplatesNotJudgedAtLoad(w *World, r *Report) {
 			n++
 			bad := ""
 			for _, c := range controllingConds(in) {
+				// whether something was built at all (x == nil) says nothing about the tree
+				if bo, ok := c.(*ssa.BinOp); ok && (bo.Op == token.EQL || bo.Op == token.NEQ) && (isNilConst(bo.X) || isNilConst(bo.Y)) {
+					other := bo.X
+					if isNilConst(bo.X) {
+						other = bo.Y
+					}
+					if unspill(other) != tree {
+						continue
+					}
+				}
 				if valueDependsOn(c, tree, 8) {
 					bad = w.posOf(c.Pos())
 				}
